@@ -156,6 +156,10 @@ def run_trigger(act, seam, st):
         x = st.get("x")
         node = act.node(st.get("stage"))
         node.ocp.sample(node.syms[x] if x else node.ocp.t, grid=st.get("grid", "control"))
+    elif w == "der":
+        # the public query ocp.der(x): builds the system function on the user's (not yet transcribed) stage
+        node = act.node(st.get("stage"))
+        node.ocp.der(node.syms[st["x"]])
     elif w == "to_function":
         act.ocp.to_function("f", [], [act.ocp.sample(act.ocp.t, grid="control")[1]])
     else:
@@ -212,7 +216,7 @@ def as_substage(steps, name="s1", parent_method=False, parent_syms=False):
                     d[key] = st[key]
             out.append(d)
             continue
-        if k == "solver" or (k == "trigger" and st["what"] != "sample") or k == "omission":
+        if k == "solver" or (k == "trigger" and st["what"] not in ("sample", "der")) or k == "omission":
             out.append(st)
             continue
         st["stage"] = name
@@ -338,6 +342,11 @@ def cases_for(ops, sp, cls, r):
             adds = [dict(F(a), fault_kind=kind) for a in adds]
             # timing 1: last declaration before the first transcription
             cases.append(((kind, pos, cls, "before-first-solve", trig_name), ops + adds + jcopy(trig)))
+            if all(a["op"] == "set_der" for a in adds):
+                # timing 1b: the derivative is declared again after the query ocp.der(x) has made the stage build (and
+                # possibly keep) its system function from the well-posed right-hand sides
+                cases.append(((kind, pos, cls, "after-der-query", trig_name),
+                              ops + [{"op": "trigger", "what": "der", "x": adds[0]["state"]}] + adds + jcopy(trig)))
             # timing 2: after a successful solve
             cases.append(((kind, pos, cls, "after-solve", trig_name), ops + [{"op": "trigger", "what": "solve"}] + adds + jcopy(trig)))
             # timing 3: after a successful solve, followed by a method re-declaration
